@@ -97,6 +97,8 @@ type hOp struct {
 	// block: N blocks, each advancing block time by Dt ns
 	N  int   `json:"n,omitempty"`
 	Dt int64 `json:"dt,omitempty"`
+	// block: the module is exported and imported again between the last two of these blocks
+	Restart bool `json:"restart,omitempty"`
 }
 
 const (
@@ -177,6 +179,7 @@ type counters struct {
 	// restarts
 	reimports, reimpOpenPlain, reimpOpenIn, reimpOpenOut, reimpForgot, reimpSupply, reimpAtExpiryM1 int
 	bursts, burstRefunded                                                                           int
+	boundaryRestarts, boundaryRestartsAtExpiry                                                      int
 	impPlainRefunded, impInRefunded, impOutRefunded, impClaimed, impTwice                           int
 	recreatedForgotten, claimForgotten                                                              int
 	// parameter-change shapes
@@ -1083,6 +1086,23 @@ func (m *machine) applyBlocks(op hOp) error {
 			}
 		}
 		m.c.Advance(time.Duration(op.Dt), nil)
+		if op.Restart && i == n-1 {
+			// the module is restarted from its own export between two blocks (what an export-based upgrade does): the
+			// import runs at the new first height, contracts that expire at exactly that height are still open
+			atExpiry := false
+			for _, ct := range m.contracts {
+				if ct.state == stOpen && ct.expiry == uint64(m.c.Height()) {
+					atExpiry = true
+				}
+			}
+			if err := m.applyReimport(op); err != nil {
+				return err
+			}
+			m.n.boundaryRestarts++
+			if atExpiry {
+				m.n.boundaryRestartsAtExpiry++
+			}
+		}
 		var before chain.Sheet
 		if m.c03() {
 			before = m.c.Snapshot()
@@ -1394,6 +1414,8 @@ func (m *machine) Classify() (bool, []string) {
 	add(n.f11Changes, "f11-incompatible-param-change")
 	add(n.reimports, "reimport")
 	add(n.bursts, "bucket-with->100-contracts")
+	add(n.boundaryRestarts, "restart-at-a-block-boundary")
+	add(n.boundaryRestartsAtExpiry, "restart-at-the-boundary-to-an-expiry-height")
 	add(n.burstRefunded, "bucket-with->100-contracts-expired")
 	add(n.reimpOpenPlain, "reimport-with-open-plain")
 	add(n.reimpOpenIn, "reimport-with-open-incoming")
